@@ -1,11 +1,12 @@
 \* thorough, by-directory: <= 2 sub-directories out of all five VCS/IDE/report names + east, web;
 \* 3 languages x 4 file options (incl. zero-line files); DIR "." (the tree is the working directory);
-\* filters none / java,py / kt (a filter that selects nothing)
+\* filters none / java,py
 SPECIFICATION Spec
 CONSTANTS
   Shape = "bydir2w"
   Roots = {"."}
-  ExtFilters = {"none", "java,py", "kt"}
+  ExtFilters = {"none", "java,py"}
   Tops = {1}
+  Stride = 8
 INVARIANTS C16_RowPerDirectory C16_CellsExact C16_SummaryIsSum C16_AgreesWithBase C16_RunTargetsCurrentDir
            C16_TopSortedTruncated C16_TopJsonExact Emit
